@@ -552,6 +552,9 @@ pub fn validate_type_system(doc: &TsDoc) -> Vec<Issue> {
     }
     for d in &doc.defs {
         match d {
+            // the built-in scalars are declared by nitrogql itself ("must be omitted" in SDL, spec 3.5): a declaration in
+            // the schema text is a second one (extensions of them are fine)
+            TsDef::Type(t) if !t.ext && t.kind == TKind::Scalar && BUILTIN_SCALARS.contains(&t.name.s.as_str()) => out.push(issue("TS2-duplicate-type", format!("built-in scalar {} declared again", t.name.s))),
             TsDef::Type(t) if t.ext && !seen.contains_key(&(t.kind, t.name.s.clone())) && !(t.kind == TKind::Scalar && crate::schema_ix::BUILTIN_SCALARS.contains(&t.name.s.as_str())) => out.push(issue("TS-orphan-extension", format!("extension of undefined {} {}", t.kind.keyword(), t.name.s))),
             TsDef::Schema(s) if s.ext && schema_defs == 0 => out.push(issue("TS-orphan-extension", "extension of undefined schema".into())),
             _ => {}
